@@ -13,6 +13,10 @@ node (all fields always present after norm_iarch):
                "causal" (1-D: ConstantPad1d(((k-1)*d, 0)) + padding 0)
           pm   padding_mode zeros | reflect | replicate | circular   (same / int only)
     bn    BatchNorm directly after the conv / linear layer; eps, mom (codes), aff (affine), trs (track_running_stats)
+    bn2   a SECOND BatchNorm object in a row (layer -> bn -> bn2; bn2 has the other eps code)
+    bnref m > 0: the first BatchNorm of this call site is the BatchNorm OBJECT owned by call site m (one BN after two layers)
+    bnown a reuse site followed by its OWN BatchNorm object (or none) instead of the owner's (one layer, different BNs)
+    op "in2": the second input of a two-stream forward (arch["two"] = "sep"; same shape as the first input)
     excl  excluded from the search by name;  reuse = m > 0: the node calls the layer object(s) of node m
     pl    the layer is a PIT layer placed BY THE USER (PITConv1d/PITConv2d/PITLinear built by hand, README)
     sn    [] or branch descriptors [{"k","bn"}]: the conv node is a SuperNetModule (branch i = conv(k_i) [+ BN]);
@@ -20,7 +24,8 @@ node (all fields always present after norm_iarch):
           block: hard_softmax, gumbel_softmax, softmax_temperature, non-uniform alpha favouring branch i (0 = uniform)
     kind  avg | max (pooling)
 scenario = {"arch", "method": "PIT"|"SN"|"MPS", "mode": "train"|"eval", "fold": bool, "auto": bool,
-            "hist": [train|eval|export|summary|cost|forward, ...], "seed": int}
+            "hist": [train|eval|export|export_nobn|summary|cost|forward|icv|nassum, ...], "seed": int,
+            "kw": [names of rarely used public constructor keywords to pass, see KEYWORDS]}
 
 Everything the verdict depends on is LOGGED here and DECIDED by TLC (ImportLifeTrace.tla).  Reductions done in Python:
 rel = max|y - y_ref| / (1 + max|y_ref|) in float64, logged as min(floor(rel*1e12), 2e9); bitwise comparison of state_dict
@@ -44,7 +49,7 @@ CAP = 2_000_000_000
 LAYER_OPS = ("conv", "lin", "lin3")
 NODE0 = {"op": "", "ins": [], "out": 0, "k": 1, "d": 1, "s": 1, "dw": False, "grp": 1, "bias": True, "pad": "same",
          "pm": "zeros", "bn": False, "eps": 0, "mom": 0, "aff": True, "trs": True, "excl": False, "reuse": 0, "pl": False,
-         "sn": [], "sno": {"hard": False, "gum": False, "temp": 10, "fav": 0}, "kind": ""}
+         "sn": [], "sno": {"hard": False, "gum": False, "temp": 10, "fav": 0}, "kind": "", "bnref": 0, "bn2": False, "bnown": False}
 
 
 def lname(i: int) -> str:
@@ -68,12 +73,15 @@ def norm_iarch(a: Dict[str, Any]) -> Dict[str, Any]:
                 n["pm"] = "zeros"
         else:
             n["pad"], n["pm"] = "same", "zeros"
+        if n["op"] not in ("conv", "lin"):
+            n["bnref"], n["bn2"], n["bnown"] = 0, False, False
         n["sn"] = [{"k": int(b["k"]), "bn": bool(b["bn"])} for b in n["sn"]]
         n["sno"] = {"hard": bool(n["sno"]["hard"]), "gum": bool(n["sno"]["gum"]), "temp": int(n["sno"]["temp"]),
                     "fav": int(n["sno"]["fav"])}
         if n["sn"]:
             n.update({"bn": False, "k": n["sn"][0]["k"], "d": 1, "s": 1, "pad": "same" if dim == 1 else "int",
-                      "pm": "zeros", "dw": False, "grp": 1, "pl": False, "excl": False, "reuse": 0})
+                      "pm": "zeros", "dw": False, "grp": 1, "pl": False, "excl": False, "reuse": 0, "bnref": 0, "bn2": False,
+                      "bnown": False})
         else:
             n["sno"] = copy.deepcopy(NODE0["sno"])
         n["kind"] = (src.get("kind") or "avg") if n["op"] == "pool" else ""
@@ -87,7 +95,7 @@ def shapes(arch) -> List[Dict[str, Any]]:
     dim = arch["dim"]
     sh = [{"ch": arch["c0"], "sp": arch["sp"], "flat": False}]
     for n in arch["nodes"]:
-        i0 = sh[n["ins"][0]]
+        i0 = sh[n["ins"][0]] if n["ins"] else sh[0]
         op = n["op"]
         if op == "conv":
             if n["pad"] == "valid":
@@ -105,6 +113,8 @@ def shapes(arch) -> List[Dict[str, Any]]:
             sh.append({"ch": i0["ch"] * i0["sp"] ** dim, "sp": 1, "flat": True})
         elif op in ("relu", "drop", "add"):
             sh.append(dict(i0))
+        elif op == "in2":
+            sh.append(dict(sh[0]))
         else:
             raise ValueError(op)
     return sh
@@ -137,9 +147,10 @@ def _classes():
             self.plan = []
             for idx, n in enumerate(arch["nodes"], start=1):
                 op = n["op"]
-                cin = sh[n["ins"][0]]["ch"]
+                cin = sh[n["ins"][0]]["ch"] if n["ins"] else arch["c0"]
                 nm = lname(idx)
                 names: List[str] = []
+                bnames: List[str] = []
                 if op in LAYER_OPS and n["reuse"]:
                     names = list(self.plan[n["reuse"] - 1][1])
                 elif op == "conv" and n["sn"]:
@@ -204,10 +215,6 @@ def _classes():
                             conv = PITConv2d(conv, PITFeaturesMasker(cout), fold_bn=fold)
                     self.layers[nm] = conv
                     names.append(nm)
-                    if n["bn"]:
-                        self.layers[nm + "_bn"] = (nn.BatchNorm1d if dim == 1 else nn.BatchNorm2d)(
-                            cout, eps=EPS[n["eps"]], momentum=MOM[n["mom"]], affine=n["aff"], track_running_stats=n["trs"])
-                        names.append(nm + "_bn")
                 elif op in ("lin", "lin3"):
                     fin = cin if op == "lin" else sh[n["ins"][0]]["sp"]
                     lin = nn.Linear(fin, n["out"], bias=n["bias"])
@@ -217,10 +224,6 @@ def _classes():
                         lin = PITLinear(lin, PITFeaturesMasker(n["out"]), fold_bn=fold)
                     self.layers[nm] = lin
                     names.append(nm)
-                    if n["bn"]:
-                        self.layers[nm + "_bn"] = nn.BatchNorm1d(n["out"], eps=EPS[n["eps"]], momentum=MOM[n["mom"]],
-                                                                 affine=n["aff"], track_running_stats=n["trs"])
-                        names.append(nm + "_bn")
                 elif op == "relu":
                     self.layers[nm] = nn.ReLU()
                     names.append(nm)
@@ -235,18 +238,37 @@ def _classes():
                 elif op == "flat":
                     self.layers[nm] = nn.Flatten(1)
                     names.append(nm)
-                elif op != "add":
+                elif op not in ("add", "in2"):
                     raise ValueError(op)
-                self.plan.append((op, names, list(n["ins"])))
+                # the BatchNorm OBJECTS applied behind the layer at this call site (ImportLife!BnSeq)
+                if op in ("conv", "lin") and not n["sn"]:
+                    if n["reuse"] and not n["bnown"] and not n["bnref"]:
+                        bnames = list(self.plan[n["reuse"] - 1][2])
+                    else:
+                        width = sh[idx]["ch"]
+                        cls_bn = nn.BatchNorm1d if (dim == 1 or op == "lin") else nn.BatchNorm2d
+                        if n["bnref"]:
+                            bnames.append(lname(n["bnref"]) + "_bn")
+                        elif n["bn"]:
+                            self.layers[nm + "_bn"] = cls_bn(width, eps=EPS[n["eps"]], momentum=MOM[n["mom"]], affine=n["aff"],
+                                                             track_running_stats=n["trs"])
+                            bnames.append(nm + "_bn")
+                        if bnames and n["bn2"]:
+                            self.layers[nm + "_bn2"] = cls_bn(width, eps=EPS[1 - n["eps"]], momentum=MOM[n["mom"]],
+                                                              affine=n["aff"], track_running_stats=n["trs"])
+                            bnames.append(nm + "_bn2")
+                self.plan.append((op, names, bnames, list(n["ins"])))
 
-        def forward(self, x):
+        def forward(self, x, xb=None):
             t = [x]
-            for op, names, ins in self.plan:
+            for op, names, bnames, ins in self.plan:
                 if op == "add":
                     y = t[ins[0]] + t[ins[1]]
+                elif op == "in2":
+                    y = xb
                 else:
                     y = t[ins[0]]
-                    for nm in names:
+                    for nm in names + bnames:
                         y = self.layers[nm](y)
                 t.append(y)
             return t[-1]
@@ -262,6 +284,8 @@ def _classes():
         def forward(self, xa, xb):
             if self.how == "add":
                 return self.body(xa + xb)
+            if self.how == "sep":                      # two streams: the body consumes both inputs
+                return self.body(xa, xb)
             return self.body(torch.cat([xa, xb], dim=1))
 
     _CLS.update({"ImportNet": ImportNet, "TwoIn": TwoIn})
@@ -303,7 +327,7 @@ def build_user_model(arch: Dict[str, Any], fold: bool, seed: int):
         xs = (torch.rand((3,) + shp, generator=gen) * 2 - 0.5,)
     else:
         model = cl["TwoIn"](body, arch["two"])
-        if arch["two"] == "add":
+        if arch["two"] in ("add", "sep"):
             xs = (torch.rand((3,) + shp, generator=gen) * 2 - 0.5, torch.rand((3,) + shp, generator=gen) - 0.3)
         else:
             ca = arch["ca"]
@@ -499,6 +523,85 @@ def sn_options(model, arch) -> List[Dict[str, Any]]:
     return out
 
 
+# rarely used public keywords of the constructors: name used in scenario["kw"] -> what is passed
+KEYWORDS = {
+    "PIT": ("disc", "full", "notrain", "costd", "exty"),
+    "SN": ("full", "costd"),
+    "MPS": ("full", "costd", "exty", "pc", "noshare", "hard", "gum", "temp", "nosamp"),
+}
+# public keywords the harness knows how to exercise (constructor / method -> keyword): everything else that shows up in a
+# signature is reported in the evidence as not exercised
+EXERCISED = {
+    "PIT.__init__": {"model", "cost", "input_example", "input_shape", "autoconvert_layers", "discrete_cost", "full_cost",
+                     "exclude_names", "exclude_types", "train_features", "train_rf", "train_dilation", "fold_bn"},
+    "PIT.export": {"add_bn"},
+    "SuperNet.__init__": {"model", "cost", "input_example", "full_cost"},
+    "SuperNet.get_total_icv": set(),
+    "MPS.__init__": {"model", "cost", "input_example", "w_search_type", "full_cost", "exclude_names", "exclude_types",
+                     "temperature", "gumbel_softmax", "hard_softmax", "disable_sampling", "disable_shared_quantizers"},
+    "MPS.nas_parameters_summary": {"post_sampling"},
+}
+
+
+def public_keywords() -> Dict[str, Any]:
+    """Keywords of the public constructors / methods of the three wrappers, read from their signatures."""
+    import inspect
+    from plinio.methods import PIT, MPS, SuperNet
+    out: Dict[str, Any] = {}
+    for cls in (PIT, SuperNet, MPS):
+        for name in ["__init__"] + sorted(n for n in vars(cls) if not n.startswith("_") and callable(getattr(cls, n))):
+            try:
+                ps = [p for p in inspect.signature(getattr(cls, name)).parameters if p not in ("self", "args", "kwargs")]
+            except (TypeError, ValueError):
+                continue
+            key = f"{cls.__name__}.{name}"
+            if ps or key in EXERCISED:
+                out[key] = {"keywords": ps, "not_exercised": sorted(set(ps) - EXERCISED.get(key, set()))}
+    return out
+
+
+def _ctor_kwargs(method: str, kws: List[str], arch, excl: List[str]):
+    """scenario["kw"] -> constructor keyword arguments; returns (kwargs, exclude_names, names actually used)."""
+    import torch.nn as nn
+    import plinio.cost as pc
+    kw: Dict[str, Any] = {}
+    used = []
+    for k in kws:
+        if k not in KEYWORDS[method]:
+            continue
+        if k == "disc":
+            kw["discrete_cost"] = True
+        elif k == "full":
+            kw["full_cost"] = True
+        elif k == "notrain":
+            kw.update({"train_features": False, "train_rf": False, "train_dilation": False})
+        elif k == "costd":
+            kw["cost"] = {"p": pc.params_bit if method == "MPS" else pc.params, "o": pc.ops_bit if method == "MPS" else pc.ops}
+        elif k == "exty":
+            # exclude_types=(nn.Linear,) says the same as the names if exactly the plain linear layers are excluded
+            lin = [n for n in arch["nodes"] if n["op"] in ("lin", "lin3") and not n["reuse"] and not n["pl"]]
+            oth = [n for n in arch["nodes"] if n["op"] == "conv" and n["excl"]]
+            if not lin or oth or not all(n["excl"] for n in lin):
+                continue
+            kw["exclude_types"] = (nn.Linear,)
+            excl = []
+        elif k == "pc":
+            from plinio.methods.mps import MPSType
+            kw["w_search_type"] = MPSType.PER_CHANNEL
+        elif k == "noshare":
+            kw["disable_shared_quantizers"] = True
+        elif k == "hard":
+            kw["hard_softmax"] = True
+        elif k == "gum":
+            kw["gumbel_softmax"] = True
+        elif k == "temp":
+            kw["temperature"] = 0.5
+        elif k == "nosamp":
+            kw["disable_sampling"] = True
+        used.append(k)
+    return kw, excl, used
+
+
 def _flags(w) -> Dict[str, bool]:
     return {"w": bool(w.training), "s": bool(w.seed.training),
             "kids": all(m.training == w.training for m in w.modules())}
@@ -510,7 +613,7 @@ def run(sc: Dict[str, Any]) -> Dict[str, Any]:
     arch = norm_iarch(sc["arch"])
     method, mode, fold, auto = sc["method"], sc["mode"], bool(sc.get("fold", False)), bool(sc.get("auto", True))
     hist = list(sc.get("hist", []))
-    tr: Dict[str, Any] = {"arch": arch, "method": method, "mode": mode, "fold": fold, "auto": auto, "hist": hist,
+    tr: Dict[str, Any] = {"arch": arch, "method": method, "mode": mode, "fold": fold, "auto": auto, "hist": hist, "kw": [], "dwe": -1,
                           "user_ok": True, "conv_ok": False, "err": "", "errk": "", "O": [], "OP": [], "dpl": -1, "N": [], "E": [], "masks": [],
                           "snopt0": [], "snopt1": [],
                           "u0": mode == "train", "w1": False, "s1": False, "u1": False, "kids": True,
@@ -553,6 +656,7 @@ def run(sc: Dict[str, Any]) -> Dict[str, Any]:
     pre = body_prefix(arch)
     excl = [pre + "layers." + lname(i) for i, n in enumerate(arch["nodes"], start=1)
             if n["op"] in LAYER_OPS and n["excl"] and not n["reuse"]]
+    kw, excl, tr["kw"] = _ctor_kwargs(method, list(sc.get("kw", [])), arch, excl)
     try:
         with warnings.catch_warnings():
             warnings.simplefilter("ignore")
@@ -563,15 +667,15 @@ def run(sc: Dict[str, Any]) -> Dict[str, Any]:
                 batch1_ok = all(n["trs"] or not n["bn"] for n in arch["nodes"])
                 if len(xs) == 1 and int(sc.get("seed", 0)) % 2 == 0 and batch1_ok:
                     w = PIT(model, input_shape=tuple(xs[0].shape[1:]), fold_bn=fold, autoconvert_layers=auto,
-                            exclude_names=excl)
+                            exclude_names=excl, **kw)
                 else:
-                    w = PIT(model, input_example=ex, fold_bn=fold, autoconvert_layers=auto, exclude_names=excl)
+                    w = PIT(model, input_example=ex, fold_bn=fold, autoconvert_layers=auto, exclude_names=excl, **kw)
             elif method == "SN":
                 from plinio.methods import SuperNet
-                w = SuperNet(model, input_example=ex)
+                w = SuperNet(model, input_example=ex, **kw)
             else:
                 from plinio.methods import MPS
-                w = MPS(model, input_example=ex, exclude_names=excl)
+                w = MPS(model, input_example=ex, exclude_names=excl, **kw)
         tr["conv_ok"] = True
     except Exception as e:
         tr["err"] = _err(e)
@@ -644,10 +748,17 @@ def run(sc: Dict[str, Any]) -> Dict[str, Any]:
                     w.eval()
                 elif a == "export":
                     w.export()
+                elif a == "export_nobn":             # PIT: the rarely used public argument of export()
+                    w.export(add_bn=False)
                 elif a == "summary":
                     w.summary()
                 elif a == "cost":
-                    float(w.cost)
+                    float(w.get_cost("p")) if "costd" in tr["kw"] else float(w.cost)
+                elif a == "icv":                     # SuperNet
+                    float(w.get_total_icv())
+                elif a == "nassum":                  # MPS
+                    w.alpha_summary()
+                    w.nas_parameters_summary(post_sampling=False)
                 elif a == "forward":
                     if w.training:
                         raise tlc.MachineryError("history: forward is only performed in eval mode (a training-mode forward "
@@ -692,6 +803,13 @@ def run(sc: Dict[str, Any]) -> Dict[str, Any]:
                     tr["de_checked"] = True
         except Exception as e2:
             tr["exp_err"] = _err(e2)
+        # ... and when the user finally calls eval(), the wrapper still computes the original function
+        try:
+            w.eval()
+            with torch.no_grad():
+                tr["dwe"] = _rel(w(*xs), y0)
+        except Exception as e3:
+            tr["dwe"] = CAP
     return tr
 
 
